@@ -654,6 +654,80 @@ def r9_register_then_attach(idx, r):
         raise AnalysisError(f"only {k} applyInputParams methods assigning material fields found")
 
 
+def r10_element_lookups(idx, r):
+    """The element tables are filled by addGlobalElement under element.z / element.name / element.symbol, the symbol upper-cased by the
+    factory and the name as spelled in elements.dat.  A helper that looks an element up from a caller's symbol or name must (1) consult the
+    table of that kind and (2) normalise the argument so that every STORED key maps to itself (checked for all elements of the data file):
+    otherwise the lookup fails for every element."""
+    em = idx.module("armi.nucDirectory.elements")
+    fac = em.functions.get("factory")
+    reg = em.functions.get("addGlobalElement")
+    if fac is None or reg is None:
+        raise AnchorMissing("elements.factory / addGlobalElement")
+    keyattr = {}
+    for s_ in iter_stores(reg.node):
+        if s_.kind == "subscript" and s_.chain in ("byZ", "byName", "bySymbol") and isinstance(s_.node.slice, ast.Attribute):
+            keyattr[s_.chain] = s_.node.slice.attr
+    if keyattr != {"byZ": "z", "byName": "name", "bySymbol": "symbol"}:
+        raise AnalysisError(f"addGlobalElement: tables keyed by {keyattr}")
+    env = single_assign_env(fac.node)
+    ctor = next((c for c in iter_calls(fac.node) if dotted(c.func) == "Element"), None)
+    if ctor is None:
+        raise AnchorMissing("elements.factory: Element(z, sym, name, ...)")
+    T = {"upper": str.upper, "lower": str.lower, "capitalize": str.capitalize, "title": str.title, "strip": str.strip}
+
+    def transforms(e):
+        out = []
+        while isinstance(e, ast.Call) and isinstance(e.func, ast.Attribute) and e.func.attr in T and not e.args:
+            out.append(e.func.attr)
+            e = e.func.value
+        return e, out[::-1]
+    rows = read_elements(idx)
+    stored = {"bySymbol": set(), "byName": set()}
+    for table, pos, col in (("bySymbol", 1, "sym"), ("byName", 2, "name")):
+        _b, tf = transforms(propagate(ctor.args[pos], env))
+        for row in rows:
+            k = row[col]
+            for t in tf:
+                k = T[t](k)
+            stored[table].add(k)
+    kind_of = {"symbol": "bySymbol", "sym": "bySymbol", "name": "byName", "z": "byZ"}
+    n = 0
+    for mname in ("armi.nucDirectory.elements", "armi.nucDirectory.nucDir"):
+        m = idx.module(mname)
+        for f in m.all_funcs():
+            ps = set(f.params())
+            for x in walk_local(f.node):
+                if not (isinstance(x, ast.Subscript) and isinstance(x.ctx, ast.Load)):
+                    continue
+                tab = (dotted(x.value) or "").rsplit(".", 1)[-1]
+                if tab not in ("byZ", "byName", "bySymbol") or (dotted(x.value) or "") not in (tab, "elements." + tab):
+                    continue
+                base, tf = transforms(x.slice)
+                if not (isinstance(base, ast.Name) and base.id in ps and base.id in kind_of):
+                    continue
+                n += 1
+                want = kind_of[base.id]
+                if want != tab:
+                    r.violate(f"{mname.rsplit('.', 1)[-1]}.{f.qualname}:{base.id}:table", f, f"`{norm(x)}` looks the caller's {base.id} up in {tab}; the {base.id}s are the keys of {want}: the lookup raises KeyError for every element", node=x)
+                    continue
+                if tab == "byZ":
+                    r.ok(f"{mname.rsplit('.', 1)[-1]}.{f.qualname}:{base.id}:table", f, node=x)
+                    continue
+                miss = []
+                for k in sorted(stored[tab]):
+                    k2 = k
+                    for t in tf:
+                        k2 = T[t](k2)
+                    if k2 not in stored[tab]:
+                        miss.append((k, k2))
+                r.require(not miss, f"{mname.rsplit('.', 1)[-1]}.{f.qualname}:{base.id}:normalisation-finds-stored-keys", f, node=x,
+                          msg=f"`{norm(x)}` normalises the argument with {tf}: {len(miss)} of {len(stored[tab])} stored keys are not found under their own spelling (e.g. {miss[0][0]!r} -> {miss[0][1]!r}): "
+                              "the helper raises KeyError for them" if miss else "")
+    if n < 8:
+        raise AnalysisError(f"only {n} element lookups by a caller's z/symbol/name found")
+
+
 def run(idx, chk):
     chk.explanation = (
         "C19: nuclides.dat, elements.dat, burn-chain.yaml and mcc-nuclides.yaml are parsed as data and linted exhaustively (unique (Z,A,S), N=A-Z, "
@@ -679,3 +753,5 @@ def run(idx, chk):
                  necessary="library materials have mass fractions summing to one, also after an input modification re-splits two elements")
     chk.run_rule("R19.9", "a nuclide joins its element only after registration accepted it; applyInputParams assigns a field before computing the composition from it", lambda r: r9_register_then_attach(idx, r), floor=3,
                  necessary="a rejected registration leaves the directory consistent; every material composition is normalised for every admitted input")
+    chk.run_rule("R19.10", "element look-ups consult the table of the argument's kind and normalise it so that every stored key finds itself (all elements)", lambda r: r10_element_lookups(idx, r), floor=8,
+                 necessary="every element is reachable by number, symbol and name through the directory's own helpers")
